@@ -5,6 +5,7 @@ package main
 // sequence of cases, so a worker can be restarted at case index N.
 
 import (
+	"bytes"
 	"hash/maphash"
 	"strings"
 )
@@ -116,6 +117,25 @@ func forEachCase(ep *EP, thorough bool, fn caseFn) int {
 	// SMB parameter words: values at which count*size wraps a 16-bit (or 8-bit) product to something small
 	// (quick), every 16-bit value (thorough), in both byte orders
 	if ep.ParamWords != nil {
+		// AndX chains: the first two parameter words of an AndX structure name the NEXT command and where it
+		// starts. A decoder that follows the chain must make progress: the block named as "next" is this very
+		// block, an earlier byte, the header, the last byte, one past the end (both byte orders; next command =
+		// this command, every AndX command code, and a non-AndX one).
+		for si, sd := range ep.Seeds {
+			if si >= 2 || e.stop || len(sd) < 37 || sd[32] < 2 {
+				break
+			}
+			for _, next := range []byte{sd[4], 0x24, 0x2D, 0x2E, 0x2F, 0x73, 0x74, 0x75, 0xA2, 0x2B} {
+				for _, off := range []int{0, 1, 31, 32, 33, 34, 35, 36, 37, len(sd) - 1, len(sd), len(sd) + 1} {
+					buf = append(buf[:0], sd...)
+					buf[33], buf[34] = next, 0
+					buf[35], buf[36] = byte(off), byte(off>>8)
+					e.emit(buf, "andx-chain")
+					buf[35], buf[36] = byte(off>>8), byte(off)
+					e.emit(buf, "andx-chain")
+				}
+			}
+		}
 		for si, sd := range ep.Seeds {
 			if si >= 2 || e.stop {
 				break
@@ -300,6 +320,45 @@ func forEachCase(ep *EP, thorough bool, fn caseFn) int {
 				e.emit(buf, "decimal-field")
 			}
 			p = q
+		}
+	}
+	// text: the NUMBER of delimited groups. For every punctuation byte d of a printable seed: the seed's groups
+	// (split on d) repeated to 0..12 groups, and the same with one delimiter doubled at every boundary and at
+	// either end (the "::" of IPv6, an empty RDN, an empty range) - parsers index groups by position, and the
+	// count is an input like any other.
+	for _, sd := range ep.Seeds {
+		if e.stop || !printable(sd) || len(sd) > 200 {
+			continue
+		}
+		seenD := map[byte]bool{}
+		for _, d := range sd {
+			isAlnum := d >= '0' && d <= '9' || d >= 'a' && d <= 'z' || d >= 'A' && d <= 'Z'
+			if isAlnum || seenD[d] || d >= 0x80 {
+				continue
+			}
+			seenD[d] = true
+			parts := bytes.Split(sd, []byte{d})
+			for n := 0; n <= 12 && !e.stop; n++ {
+				for dbl := -1; dbl <= n; dbl++ { // -1: no doubled delimiter; k: doubled in front of group k (n: at the end)
+					buf = buf[:0]
+					for k := 0; k < n; k++ {
+						if k > 0 {
+							buf = append(buf, d)
+						}
+						if dbl == k {
+							buf = append(buf, d)
+							if k == 0 {
+								buf = append(buf, d)
+							}
+						}
+						buf = append(buf, parts[k%len(parts)]...)
+					}
+					if dbl == n {
+						buf = append(buf, d, d)
+					}
+					e.emit(buf, "group-count")
+				}
+			}
 		}
 	}
 	// name-compression pointers (DNS-style codecs): at every position a pointer C0|hi lo to every offset of the seed
